@@ -31,7 +31,13 @@ RULE = ('deviation-bounded enumeration: every text within the stated edit '
         'keyword-sequence languages, is passed to Read; non-trivial = the '
         'reader got past the first token (error position beyond line 1 column '
         '1, a reader error, NotImplementedError, or acceptance)')
-ASSUMPTIONS = ['work budget 2000 + 200*len(text) calls of ParseState.peek '
+ASSUMPTIONS = ['a RINGReaderError raised while a RecursionError is being '
+               'handled (how /repo reports an exhausted recursion limit) is '
+               'accepted only for texts of >= 80 tokens: the parser nests one '
+               'level per link of a chain and needs >= ~110 links to exhaust '
+               'the limit; on a shorter text it is reported as runaway '
+               'recursion (a rule recursing without consuming input)',
+               'work budget 2000 + 200*len(text) calls of ParseState.peek '
                '(measured maximum on valid and invalid input: ~11 per input '
                'character); a budget hit is re-run with a 20x budget before it '
                'is called a hang',
@@ -58,6 +64,9 @@ MANIFEST = dict(
          'further than two token edits from a seed and long texts are not '
          'covered.',
     ref='5/C09')
+
+
+MIN_TOKENS_FOR_DEEP = 80
 
 
 class Hang(BaseException):
@@ -111,6 +120,10 @@ def where(exc):
 
 def classify(text, mult=1):
     """-> (class, key or None, detail)."""
+    return classify0(text, mult)
+
+
+def classify0(text, mult=1):
     from pgradd.RINGParser import Read
     from pgradd.Error import RINGSyntaxError, RINGReaderError
     ST['count'] = 0
@@ -120,7 +133,7 @@ def classify(text, mult=1):
         r = Read(text)
     except Hang:
         if mult == 1:
-            return classify(text, 20)
+            return classify0(text, 20)
         return 'hang', 'hang', 'more than %d look-ahead calls for %d characters' % (
             ST['budget'], len(text))
     except RINGSyntaxError as e:
@@ -141,6 +154,14 @@ def classify(text, mult=1):
         return ('RINGSyntaxError@1:1' if (e.lineno, e.colno) == (1, 1)
                 else 'RINGSyntaxError'), None, ''
     except RINGReaderError as e:
+        # /repo reports an exhausted recursion limit as a RINGReaderError: right
+        # for a long text (one level per link of a chain: >= ~110 links), a
+        # non-consuming recursion if the text has too few tokens for that
+        if (isinstance(e.__context__, RecursionError)
+                and len(RT.TOKRE.findall(text)) < MIN_TOKENS_FOR_DEEP):
+            return ('runaway-recursion', 'runaway-recursion',
+                    'recursion limit exhausted on a text of %d tokens' %
+                    len(RT.TOKRE.findall(text)))
         try:
             str(e)
         except Exception as e2:     # noqa
